@@ -56,10 +56,19 @@ def build(B, cfg):
             B.assume(s_ > 0)
     n_top = pop.n_parameters() + (0 if sigma is not None else n_out)
     prior = SymPrior(B, n_top)
-    post = chi.PopulationFilterLogPosterior(
-        filt, times, mm, pop, prior, sigma=sigma,
-        error_on_log_scale=cfg.get('log_scale', False), n_samples=n_s,
-        covariates=ps.arr(B, covs) if covs else None)
+    def make_post():
+        return chi.PopulationFilterLogPosterior(
+            filt, times, mm, pop, prior, sigma=sigma,
+            error_on_log_scale=cfg.get('log_scale', False), n_samples=n_s,
+            covariates=ps.arr(B, covs) if covs else None)
+    post = make_post()
+    if cfg.get('reuse_filter'):
+        # the caller's filter object serves a second posterior: both stand
+        # for the same data ('second': the later one is checked, 'first': the
+        # earlier one, after the later one was built)
+        post2 = make_post()
+        if cfg['reuse_filter'] == 'second':
+            post = post2
     return dict(mm=mm, pop=pop, post=post, prior=prior, M=M, covs=covs,
                 sigma=sigma, units=units, n_ids=n_s, fixed={},
                 ll_names=mm.parameters(), kind=kind, n_out=n_out,
@@ -219,6 +228,16 @@ def jobs(tier):
         out.append(('post', 'case_post', dict(
             units=c, n_samples=2, times=timesets[k % 3],
             sigma_fixed=(k % 2 == 0)), {'max_paths': 64}))
+    # one filter object used for two posteriors (unsorted times)
+    for k, c in enumerate(([hier.unit('lognormal'), hier.unit('pooled')],
+                           [hier.unit('gaussian_nc'), hier.unit('gaussian')])):
+        for which in ('second', 'first'):
+            out.append(('post', 'case_post', dict(
+                units=c, n_samples=2, times=[2.5, 1.0], reuse_filter=which,
+                sigma_fixed=bool(k)), {}))
+        out.append(('post', 'case_post', dict(
+            units=c, n_samples=2, times=[2.5, 4.0, 1.0], n_out=1,
+            reuse_filter='second', sigma_fixed=True), {}))
     # composed filter, three unsorted times whose sorting permutation is not
     # its own inverse
     for times in ([2.5, 4.0, 1.0], [4.0, 1.0, 2.5]):
